@@ -79,7 +79,7 @@ def run(tier, seed):
             ck.count('in domain' if ok else 'outside domain (non-ASCII text): correspondence only -> %s' % real[0])
             for s in p['sections']:
                 ck.count('kind ' + s['kind'])
-            compare(ck, p, data, real, model, spec if ok else None, label='hdr')
+            compare(ck, p, data, real, model, spec if ok else None, label='hdr', env_kwargs=dict(allow=True, comp_ids=COMP_IDS))
     finally:
         env.uninstall()
     return ck.finish(RULE, TRUSTED, ASSUME)
